@@ -5,7 +5,7 @@
 # /verif/sim stay untouched and usable meanwhile. Development helper; registered checks never use it.
 P="$1"; shift
 # EVAL_SLOT (default 1) selects the private copy, so that two evaluations can run side by side
-S="${EVAL_SLOT:-1}"; R=$R-$S; X=$X-$S; E=$E-$S; O=$O-$S
+S="${EVAL_SLOT:-1}"; R=/tmp/eval-repo-$S; X=/tmp/eval-sim-$S; E=/tmp/eval-export-$S; O=/tmp/seeded-eval-$S
 [ -d $R ] || git -C /repo worktree add --detach $R HEAD >/dev/null 2>&1 || exit 2
 git -C $R checkout -q --detach "$(git -C /repo rev-parse HEAD)" 2>/dev/null
 git -C $R checkout -- . 
